@@ -51,3 +51,15 @@ func VerifRyuShortest(mant uint64, exp int) (digits []byte, dp int) {
 func VerifRing() (slots, size, closeAt int) {
 	return indexSlots, indexSize, indexSizeWithSafetyBuffer
 }
+
+// VerifIterState exposes the cursor of an Iter: next offset, pending skip, current payload and tag,
+// and the length of the (possibly restricted) tape view.
+func VerifIterState(i *Iter) (off, addNext int, cur uint64, t Tag, lim int) {
+	return i.off, i.addNext, i.cur, i.t, len(i.tape.Tape)
+}
+
+// VerifViewState exposes the read offset and view length of an Object.
+func VerifObjectState(o *Object) (off, lim int) { return o.off, len(o.tape.Tape) }
+
+// VerifArrayState exposes the read offset and view length of an Array.
+func VerifArrayState(a *Array) (off, lim int) { return a.off, len(a.tape.Tape) }
